@@ -5,10 +5,11 @@ SPECIFICATION Spec
 CONSTANTS RF1 = {1, 2, 3, 4, 5}
           RF2 = {2}
           N2 = 3
-          Outcomes = {"ok", "conflict", "unavailable", "other", "noconn"}
+          Outcomes = {"ok", "conflict", "unavailable", "other", "noconn", "notready"}
           ReplThresholdIsQuorum = FALSE
           WithTimeout = TRUE
           CaseRF1 = {1, 2, 3, 4, 5}
+          CaseRFLocal = {1, 2, 3, 4}
           CaseRF2 = {2}
           CaseOutcomes = {"ok", "conflict", "unavailable", "other", "noconn"}
 INVARIANTS C22Inv C23Inv OrderIndependent EarlyOnlyWhenDetermined
